@@ -10,6 +10,7 @@ import wasi
 from common import SEED, Verdict, main_wrap, pmap
 
 NAMES = ["a", "b", "d/c"]
+NEGOFFS = [2 ** 64 - 1, 2 ** 63, 2 ** 63 + 5, 2 ** 64 - 2]        # negative when the host reads them as file offsets
 BIGOFFS = [2 ** 32, 2 ** 32 + 1, 2 ** 33 + 5, 2 ** 31, 2 ** 32 - 1]
 
 
@@ -70,11 +71,11 @@ def gen_history(rng, hid, length):
             calls.append({"call": "write", "abi": abi(), "fd": fd, "segs": segs})
         elif r < 0.50:
             segs = [[rng.randrange(256) for _ in range(rng.choice([0, 1, 3]))] for _ in range(rng.choice([1, 2]))]
-            calls.append({"call": "pwrite", "abi": abi(), "fd": fd, "offset": rng.choice([0, 1, 2, 7, 30] + BIGOFFS[:2] + [rng.choice(BIGOFFS)]), "segs": segs})
+            calls.append({"call": "pwrite", "abi": abi(), "fd": fd, "offset": rng.choice([0, 1, 2, 7, 30] + BIGOFFS[:2] + [rng.choice(BIGOFFS), rng.choice(NEGOFFS)]), "segs": segs})
         elif r < 0.64:
             calls.append({"call": "read", "abi": abi(), "fd": fd, "lens": [rng.choice([0, 1, 2, 4, 50]) for _ in range(rng.choice([0, 1, 2, 3]))]})
         elif r < 0.72:
-            calls.append({"call": "pread", "abi": abi(), "fd": fd, "offset": rng.choice([0, 1, 3, 2 ** 32, 2 ** 32 + 1, 40]), "lens": [rng.choice([1, 3, 8]) for _ in range(rng.choice([1, 2]))]})
+            calls.append({"call": "pread", "abi": abi(), "fd": fd, "offset": rng.choice([0, 1, 3, 2 ** 32, 2 ** 32 + 1, 40, rng.choice(NEGOFFS)]), "lens": [rng.choice([1, 3, 8]) for _ in range(rng.choice([1, 2]))]})
         elif r < 0.84:
             delta = rng.choice([0, 1, 2, 5, -1, -2, -100, 2 ** 32 + 3, 2 ** 40, -(2 ** 32)])
             calls.append({"call": "seek", "abi": abi(), "fd": fd, "delta": delta & (2 ** 64 - 1), "whence": rng.choice([0, 1, 2, 2, 3])})
